@@ -1080,6 +1080,29 @@ fn random_plan(rng: &mut SmallRng, lo: bool) -> FixPlan {
     }
 }
 
+/// Directed ClientServer plans for "equal and crossing deadlines": packet A (delay `a`) and packet C (delay 7)
+/// are emitted in iteration 0, so C is the scheduler's latest deadline; `gap` iterations later the rule is
+/// replaced and packet B of A's class gets delay `b`.  For the (a, gap, b) combinations with a = b + gap * (units
+/// per iteration) B's deadline is earlier than the queue's tail and equal to that of the earlier-emitted, still
+/// pending A; the other combinations cross without a tie.
+fn crossing_plans() -> Vec<FixPlan> {
+    let mut plans = vec![];
+    for a in [3i64, 4, 5] {
+        for gap in [1usize, 2] {
+            for b in [1i64, 2, 3] {
+                let send = |cls: u64| Op::Send { cls, sock: 1, via: "ip".to_string(), copies: 1 };
+                let mut iters = vec![vec![Op::Install { table: vec![a, 7, PASS] }, send(1), send(2)]];
+                for _ in 1..gap {
+                    iters.push(vec![]);
+                }
+                iters.push(vec![Op::DropGuard { id: 2 }, Op::Install { table: vec![b, 7, PASS] }, send(1)]);
+                plans.push(FixPlan { nh: 3, nc: 3, tcpcls: 3, iters, idle: 12, tcp: false, echo_cls: 0, retx_threshold: 24 });
+            }
+        }
+    }
+    plans
+}
+
 fn main_random(args: &[String]) {
     let seed = util::arg_u64(args, "seed", 1);
     let runs = util::arg_u64(args, "runs", 20);
@@ -1088,6 +1111,11 @@ fn main_random(args: &[String]) {
     let mut rng = SmallRng::seed_from_u64(seed ^ 0x72756c65);
     let mut all: Vec<Value> = Vec::new();
     let mut counts = [0u64; 3];
+    if mode == "fix" {
+        for plan in crossing_plans() {
+            all.extend(run_fixture(&plan));
+        }
+    }
     for _ in 0..runs {
         match mode.as_str() {
             "prim" => random_prim(&mut rng, &mut all, &mut counts),
